@@ -37,3 +37,19 @@ def c08(tier):
 @reg('C10')
 def c10(tier):
     return V.generic_pbt('C10', tier, n_quick=3000, n_thorough=100000, floor=100, assumptions=API_ASSUME)
+
+@reg('C07')
+def c07(tier):
+    return V.generic_pbt('C07', tier, n_quick=4000, n_thorough=120000, floor=100, assumptions=API_ASSUME +
+                         ['deviations the documentation does not mention (sub-frame count, undeclared columns, duplicated names inside one frame) may be accepted or refused; the history ends there'])
+
+@reg('C09')
+def c09(tier):
+    return V.generic_pbt('C09', tier, n_quick=5000, n_thorough=200000, floor=100, assumptions=API_ASSUME +
+                         ['mandatory POINT/ANALOG parameters are only touched by the documented declaration calls; custom parameter names never collide with them',
+                          'arrays are capped at 3000 elements (600 strings): larger shapes are exercised only as refused calls'])
+
+@reg('C11')
+def c11(tier):
+    return V.generic_pbt('C11', tier, n_quick=2500, n_thorough=60000, floor=100, assumptions=API_ASSUME +
+                         ['name look-up is exact and case-sensitive (a padded query is a different name); expected results come from a list model built from the positional accessors'])
